@@ -422,3 +422,25 @@ Proof.
   - cbn. constructor; [intros [H|[]]; discriminate|]. constructor; [intros []|constructor].
   - cbn. discriminate.
 Qed.
+
+(* ---- the statements of Props/C10.v in the shape they are stated there ---------------------------------------------------- *)
+Lemma site_hygienize_lookup : forall V (ord ord' : list (text * V)) name,
+  Permutation ord ord' -> NoDup (keys ord) -> lookup name (hygienize_map ord) = lookup name (hygienize_map ord').
+Proof. intros V ord ord' name P ND. exact (hygienize_map_order_free V ord ord' P ND name). Qed.
+
+Lemma site_labels_lookup : forall V (ord ord' : list (text * V)) (locals : amap V) name,
+  Permutation ord ord' -> NoDup (keys ord) -> lookup name (set_labels ord locals) = lookup name (set_labels ord' locals).
+Proof. intros V ord ord' locals name P ND. exact (set_labels_order_free V ord ord' locals locals P ND (map_equiv_refl locals) name). Qed.
+
+Lemma results_are_maps : forall V (ord : list (text * V)) locals,
+  NoDup (keys (hygienize_map ord)) /\ (NoDup (keys locals) -> NoDup (keys (set_labels ord locals))).
+Proof. intros V ord locals. split; [apply hygienize_map_nodup | apply set_labels_nodup]. Qed.
+
+Lemma point_operations : forall V (m m' : amap V),
+  (Permutation m m' -> NoDup (keys m) -> map_equiv m m') /\
+  (map_equiv m m' -> forall k v, map_equiv (insert k v m) (insert k v m') /\ map_equiv (remove k m) (remove k m') /\
+                                contains_key k m = contains_key k m' /\ lookup k m = lookup k m').
+Proof.
+  intros V m m'. split; [apply lookup_perm|]. intros E k v.
+  repeat split; [apply insert_equiv | apply remove_equiv | apply contains_key_equiv | apply E]; exact E.
+Qed.
